@@ -109,6 +109,90 @@ class Hier:
         return "BaseException" in self.chain(name) or "Exception" in self.chain(name)
 
 
+def dead_under_defaults(call, callee, node):
+    """`node` (a statement or expression of `callee`) cannot execute in this call: it lies in a
+    branch, or after an early exit, that is decided by parameters the call does not pass and that
+    therefore have their constant defaults (`def walk(..., max_depth=None)` called as
+    `walk(name)`: everything after `if max_depth is None: return ...` is dead)."""
+    a = callee.node.args
+    pos = a.posonlyargs + a.args
+    off = 1 if (callee.cls is not None and callee.kind in ("instance", "class")
+                and isinstance(call.func, ast.Attribute)) else 0
+    if any(isinstance(x, ast.Starred) for x in call.args) or any(k.arg is None for k in call.keywords):
+        return False
+    given = {p.arg for p in pos[:len(call.args) + off]} | {k.arg for k in call.keywords}
+    consts = {}
+    defaults = dict(zip([p.arg for p in pos[len(pos) - len(a.defaults):]], a.defaults))
+    defaults.update({p.arg: d for p, d in zip(a.kwonlyargs, a.kw_defaults) if d is not None})
+    for name, d in defaults.items():
+        if name not in given and isinstance(d, ast.Constant):
+            consts[name] = d.value
+    rebound = {n.id for n in ast.walk(callee.node) if isinstance(n, ast.Name) and isinstance(n.ctx, ast.Store)}
+    consts = {k: v for k, v in consts.items() if k not in rebound}
+    if not consts:
+        return False
+
+    def value(t):
+        """True / False / None (unknown) of a test under the constant parameters."""
+        if isinstance(t, ast.Name) and t.id in consts:
+            return bool(consts[t.id])
+        if isinstance(t, ast.UnaryOp) and isinstance(t.op, ast.Not):
+            v = value(t.operand)
+            return None if v is None else not v
+        if isinstance(t, ast.Compare) and len(t.ops) == 1 and isinstance(t.left, ast.Name) \
+                and t.left.id in consts and isinstance(t.comparators[0], ast.Constant):
+            c, k, op = consts[t.left.id], t.comparators[0].value, t.ops[0]
+            if isinstance(op, ast.Is):
+                return c is k
+            if isinstance(op, ast.IsNot):
+                return c is not k
+            if isinstance(op, ast.Eq) and type(c) is type(k):
+                return c == k
+            if isinstance(op, ast.NotEq) and type(c) is type(k):
+                return c != k
+        if isinstance(t, ast.BoolOp):
+            vs = [value(v) for v in t.values]
+            if isinstance(t.op, ast.And):
+                return False if any(v is False for v in vs) else (True if all(v is True for v in vs) else None)
+            return True if any(v is True for v in vs) else (False if all(v is False for v in vs) else None)
+        return None
+
+    def exits(stmts):
+        return bool(stmts) and isinstance(stmts[-1], (ast.Return, ast.Raise))
+
+    def contains(st, target):
+        return any(x is target for x in ast.walk(st))
+
+    def dead_in(stmts):
+        for st in stmts:
+            if contains(st, node):
+                if isinstance(st, ast.If):
+                    v = value(st.test)
+                    if contains(st.test, node):
+                        return False
+                    in_body = any(contains(b, node) for b in st.body)
+                    if v is not None and in_body != v:
+                        return True
+                    return dead_in(st.body if in_body else st.orelse)
+                if isinstance(st, (ast.For, ast.While, ast.With, ast.Try)):
+                    for blk in (getattr(st, "body", []), getattr(st, "orelse", []),
+                                getattr(st, "finalbody", [])):
+                        if any(contains(b, node) for b in blk):
+                            return dead_in(blk)
+                return False
+            # an earlier statement of this block that always leaves the function
+            if isinstance(st, ast.If):
+                v = value(st.test)
+                if v is True and exits(st.body):
+                    return True
+                if v is False and exits(st.orelse):
+                    return True
+            elif isinstance(st, (ast.Return, ast.Raise)):
+                return True
+        return False
+    return dead_in(body_without_docstring(callee.node))
+
+
 class Origin:
     __slots__ = ("exc", "func", "node", "what", "via")
 
@@ -601,6 +685,8 @@ class FuncAnalysis:
                     for o in os_.values():
                         if self.guarded_by_caller(exc, o, recv, guards, call=e, callee=g):
                             continue
+                        if o.func is g and dead_under_defaults(e, g, o.node):
+                            continue        # unreachable when the call leaves that parameter at its default
                         self.emit(exc, e, f"call {g.qualname}", handlers, via=o)
             return
         if site.kind == "external":
